@@ -360,3 +360,7 @@ CHECK_DEADLOCK FALSE
                          "within 2 flips of every union of groups (quick) or all 2^23 (thorough); tables: programs, recover programs, execute lists, inject transforms, section tables, pivot "
                          "frames, gate vectors rendered by TLC and embedded in configuration blocks; random: arguments to 300 bytes, strings with NULs/high bytes, IPv4, digests, derived values")
     ctx.exhaustive = True
+    # history freedom of the functions of their input behind this property (Pure.tla)
+    from vt.checks import xpure
+
+    xpure.pure_part(ctx, xpure.entries_for("C03"))
